@@ -24,6 +24,13 @@ RULE = ("cases = corpus (incl. the F-C02 witness) + N random histories of 1..5 A
         "{i32::MIN,-5,0,0,7,7,i32::MAX}, all combinations of enabled/no-loop/lock-on-active, 2..3 agenda groups "
         "(MAIN implicit and explicit), 0..2 activation groups, date windows at 9,10,11,19,20,21,29,30,31 around the evaluation "
         "timestamps 10/20/30 and around 'now' for the callback twin, Set / field+k / ActivateAgendaGroup actions, max_cycles in {1,2,3,5}. "
+        "Every date attribute is handed to the rule in one of three ways (recorded in the case text, nat@how): with_date_effective_str / "
+        "with_date_expires_str on the RFC 3339 text ending in Z; the same string twins on the SAME instant written with a UTC offset "
+        "(16 real-world and extreme offsets from -23:59 to +23:59 incl. +00:00, +05:30, +05:45, -12:00, +14:00, and random minute offsets; "
+        "a negative offset puts the text on 31 December of the year before); the DateTime<Utc> twins with_date_effective / with_date_expires "
+        "(instant built by chrono arithmetic). A date-window family (N/12 cases: 2..5 always-true rules, each with a window on or next to an "
+        "evaluation timestamp, mostly offset strings, every timestamp 10/20/30 visited in random order, sometimes the callback twin) "
+        "concentrates on the boundaries. "
         "Each case is run on the real engine (firing sequence through the callback and through marker actions for execute_at_time, "
         "result counters, get_active_agenda_group, facts after every call) and on the Lean model; the observation lines are diffed and the "
         "Spec clauses (C02.Ref.scan = no-loop once / lock-on-active once per activation over the whole history; fired rules enabled, in "
@@ -41,7 +48,9 @@ TRUSTED = [
 ASSUMPTIONS = [
     "timeout = None; no custom functions; the only custom action is the harness's marker, which never fails",
     "rule names, agenda and activation groups are identifiers (Nat) mapped to strings r<n>, MAIN/G<g>, A<a>; salience within i32",
-    "dates are abstract seconds mapped order-preservingly to 2001-01-01T00:00:ss / 2201-01-01T00:00:ss so that the wall clock of execute_with_callback lies strictly between",
+    "dates are abstract seconds mapped order-preservingly to 2001-01-01T00:00:ss / 2201-01-01T00:00:ss so that the wall clock of execute_with_callback lies strictly between; "
+    "the UTC-offset renderings of an instant are computed by the harness (date_str_off) and denote the same instant by RFC 3339; the evaluation timestamps of "
+    "execute_at_time are always built from the Z text; the harness has no chrono dependency (DateTime<Utc> values come from Rule::date_effective of throw-away rules and chrono's own +, -, *)",
     "the history alphabet of the lock-on-active theorem counts set_agenda_focus, activate_agenda_group and executed ActivateAgendaGroup actions as activations",
 ]
 
